@@ -20,11 +20,14 @@
 (* in place between Dequeue and Send is delivered as the newest value.     *)
 (*                                                                         *)
 (* Mutant: "none", "register_after_walk", "sync_before_walk",              *)
-(*         "notify_before_write", "queue_values".                          *)
+(*         "notify_before_write", "queue_values", "uo_sync_after_register" *)
+(*         (updates_only: the sync marker queued after the registration -  *)
+(*         seeded change C04-5).                                           *)
 (***************************************************************************)
 EXTENDS Common, Integers, TLC
 
-CONSTANTS Paths, Vals, MaxOps, Mutant
+CONSTANTS Paths, Vals, MaxOps, Mutant,
+          UpdatesOnly   \* the subscription asks for updates only: no initial walk, the sync marker is queued before the stream is registered
 
 VARIABLES alive,     \* path |-> current node id (0 = absent)
           nodeVal,   \* node id |-> value (nodes are never reused)
@@ -96,11 +99,21 @@ Notify ==
 Register ==
     /\ ~reg
     /\ (Mutant = "register_after_walk") => phase = "synced"
+    /\ (UpdatesOnly /\ Mutant # "uo_sync_after_register") => phase = "synced"   \* the sync marker is already queued
     /\ reg' = TRUE
     /\ mustsee' = IF Mutant = "register_after_walk" THEN mustsee ELSE {p \in Paths : alive[p] # 0}
     /\ UNCHANGED <<alive, nodeVal, nnodes, wpc, wops, phase, tovisit, queue, dupc, hold, view, gotSync>>
 
+(* updates_only: no walk, just the sync marker *)
+UOSync ==
+    /\ UpdatesOnly /\ phase = "init"
+    /\ (Mutant = "uo_sync_after_register") => reg
+    /\ phase' = "synced"
+    /\ queue' = Insert(queue, dupc, SyncItem)[1] /\ dupc' = Insert(queue, dupc, SyncItem)[2]
+    /\ UNCHANGED <<alive, nodeVal, nnodes, wpc, wops, reg, tovisit, hold, view, gotSync, mustsee>>
+
 WalkBegin ==
+    /\ ~UpdatesOnly
     /\ phase = "init"
     /\ (Mutant # "register_after_walk") => reg
     /\ phase' = "walk"
@@ -145,7 +158,7 @@ Send ==
     /\ UNCHANGED <<alive, nodeVal, nnodes, wpc, wops, reg, phase, tovisit, queue, dupc, mustsee>>
 
 Writer == (\E p \in Paths, v \in Vals : WUpdate(p, v)) \/ (\E p \in Paths : WDelete(p)) \/ Notify
-Walker == Register \/ WalkBegin \/ (\E p \in Paths : WalkVisit(p)) \/ WalkEnd
+Walker == Register \/ UOSync \/ WalkBegin \/ (\E p \in Paths : WalkVisit(p)) \/ WalkEnd
 Sender == Dequeue \/ Send
 
 (* "notify_before_write": the feed is called before the tree is written -  *)
@@ -161,7 +174,7 @@ Cur(p) == IF alive[p] = 0 THEN 0 ELSE nodeVal[alive[p]]
 Quiescent == wpc = None /\ queue = <<>> /\ hold = None /\ phase = "synced" /\ reg
 
 (* C04: once nothing is pending the replayed responses equal the cache.    *)
-Converge == Quiescent => \A p \in Paths : view[p] = Cur(p)
+Converge == (~UpdatesOnly /\ Quiescent) => \A p \in Paths : view[p] = Cur(p)
 
 (* the inductive core: a registered, synced subscriber is up to date on p  *)
 (* or something for p is still pending                                      *)
@@ -169,16 +182,19 @@ PendingFor(p) ==
     \/ \E i \in 1..Len(queue) : queue[i].k # "sync" /\ queue[i].p = p
     \/ hold.k \in {"leaf", "del"} /\ hold.p = p
     \/ wpc.k \in {"leaf", "del"} /\ wpc.p = p
-NoLostUpdate == (reg /\ phase = "synced") => \A p \in Paths : view[p] = Cur(p) \/ PendingFor(p)
+NoLostUpdate == (~UpdatesOnly /\ reg /\ phase = "synced") => \A p \in Paths : view[p] = Cur(p) \/ PendingFor(p)
 
 (* the sync_response comes after every leaf that was present since the     *)
 (* subscription started                                                     *)
-SyncAfterSnapshot == gotSync => \A p \in mustsee : view[p] # 0 \/ PendingFor(p)
+SyncAfterSnapshot == (~UpdatesOnly /\ gotSync) => \A p \in mustsee : view[p] # 0 \/ PendingFor(p)
+
+(* updates_only: the sync_response is the first thing the subscriber is sent *)
+UOSyncFirst == (UpdatesOnly /\ ~gotSync) => \A p \in Paths : view[p] = 0
 
 (* the backlog holds at most one entry per leaf node, one per delete, sync *)
 Backlog == Len(queue) <= nnodes + wops + 1 /\ \A i, j \in 1..Len(queue) : i # j => queue[i] # queue[j]
 
 (* liveness: the subscriber eventually gets its sync and catches up        *)
 EventuallySynced == <>gotSync
-EventuallyConverged == <>[](wops = MaxOps => \A p \in Paths : view[p] = Cur(p))
+EventuallyConverged == UpdatesOnly \/ <>[](wops = MaxOps => \A p \in Paths : view[p] = Cur(p))
 =============================================================================
